@@ -89,9 +89,45 @@ VAR = L.Constant("v", "<decimal_digits>")
 _TREE_DEFS = {}      # id(tree) -> (name, literal): argument trees are defined once per case file
 
 
+_LABELS = {}         # label string -> name of a Gallina constant (keeps 40-deep trees small)
+TREE_PRELUDE = ("Definition nd (l : str) (ks : list tree) := Node l 0%N false ks.\n"
+                "Definition lf (l : str) := Node l 0%N false [].\n"
+                "Definition op (l : str) := Node l 0%N true [].\n")
+
+
+def g_lbl(v):
+    if v not in _LABELS:
+        _LABELS[v] = f"L{len(_LABELS)}"
+    return _LABELS[v]
+
+
+def g_ctree(t):
+    """compact literal (node ids are irrelevant to the model: all 0)"""
+    out, stack = {}, [(t, False)]
+    while stack:
+        node, done = stack.pop()
+        if done:
+            ch = node.children
+            if ch is None:
+                out[id(node)] = f"(op {g_lbl(node.value)})"
+            elif not ch:
+                out[id(node)] = f"(lf {g_lbl(node.value)})"
+            else:
+                out[id(node)] = f"(nd {g_lbl(node.value)} [" + "; ".join(out.pop(id(c)) for c in ch) + "])"
+        else:
+            stack.append((node, True))
+            for c in node.children or ():
+                stack.append((c, False))
+    return out[id(t)]
+
+
+def label_defs():
+    return "".join(f"Definition {nm} : str := {g_str(v)}.\n" for v, nm in _LABELS.items())
+
+
 def g_tref(t):
     if id(t) not in _TREE_DEFS:
-        _TREE_DEFS[id(t)] = (f"t{len(_TREE_DEFS)}", g_tree(t), t)
+        _TREE_DEFS[id(t)] = (f"t{len(_TREE_DEFS)}", g_ctree(t), t)
     return _TREE_DEFS[id(t)][0]
 
 
@@ -151,7 +187,7 @@ def g_iout(o):
         return "INotReady"
     if o[0] == "bool":
         return f"(IBool {g_bool(o[1])})"
-    return f"(IAssign {g_nat(o[1])} {g_tree(o[2])})"
+    return f"(IAssign {g_nat(o[1])} {g_ctree(o[2])})"
 
 
 def j_arg(a):
@@ -403,7 +439,7 @@ def gen_octal(rng, thorough):
     # in all three modes; the model computes in unbounded N / Z
     long_o = ["1" + "0" * 22, "7" * 23, "1" + "0" * 39, "0" * 4 + "1" + "0" * 22]
     long_d = ["1" + "0" * 22, "9" * 23, "1" + "0" * 39, "000" + "9" * 24]
-    for _ in range(6 if thorough else 3):
+    for _ in range(6 if thorough else 2):
         k = rng.randint(23, 40)
         so = rng.choice("1234567") + "".join(rng.choice("01234567") for _ in range(k - 1))
         long_o += [so, "0" * rng.randint(1, 3) + so]
@@ -538,7 +574,8 @@ def run(run):
         if m[0] == "octal" and m[2][0] == "bool" and closed(m[1][0]) and str(m[1][0]) == "17":
             run.sample({"pred": "octal", "args": [j_arg(a) for a in m[1]], "impl": j_out(m[2])}); break
 
-    defs = ("".join(f"Definition {nm} := {lit}.\n" for nm, lit, _ in _TREE_DEFS.values())
+    defs = (TREE_PRELUDE + label_defs()
+            + "".join(f"Definition {nm} := {lit}.\n" for nm, lit, _ in _TREE_DEFS.values())
             + f"Definition G : grammar := {g_grammar(CANON)}.\n"
             f"Definition LANGS := {g_langs()}.\n"
             f"Definition FX := {g_bool(not pinned)}.\n")
